@@ -439,5 +439,5 @@ func checkC17(ctx *Ctx) {
 		exhaustiveLane(ctx, "alias-d3", c17AliasAlphabet(), c17AliasInits(), 3)
 	}
 	ctx.exhaustive = false
-	randomLane(ctx, "random", ctx.N(500, 8000), c17Gens(), nil, c17Universe(), 40, 60, 0.04, lightInst)
+	randomLane(ctx, "random", ctx.N(1200, 12000), c17Gens(), nil, c17Universe(), 40, 60, 0.04, lightInst)
 }
